@@ -855,6 +855,13 @@ func main() {
 	for i := 0; i < nCt; i++ {
 		progs = append(progs, genCt(rng.Fork(), len(progs)))
 	}
+	// canary of finding C08-3 (a [...]T{...} literal nested in another composite literal is rejected: "invalid type for
+	// composite literal: <[0]T> [...]T, expecting [3]T"): while it is present the fresh-site generator writes [3]T
+	// instead of [...]T (the exact input is in corpus/C08: 03_ellipsis_array_literal_nested.json)
+	if e := vh.Catch(func() { fast.New().Eval("[][3]int64{[...]int64{1, 2, 3}}") }); e != nil {
+		avoidEllipsisLit = true
+	}
+	rep.Extra["defect_present:ellipsis-array-literal-nested"] = avoidEllipsisLit
 	// allocation-site freshness (fresh.go); own PRNG stream so that the streams above keep their seeds
 	frng := vh.NewRng(a.Seed*7919 + 8)
 	for i := 0; i < nFresh; i++ {
